@@ -566,12 +566,38 @@ class Candidate:
         decos = [ast.unparse(d) for d in fn.decorator_list]
         self.static = "staticmethod" in decos
         self.classm = "classmethod" in decos
-        self.ok = all(d in ("staticmethod", "classmethod") for d in decos)
+        self.cm = any(d in ("contextmanager", "contextlib.contextmanager") for d in decos)
+        self.ok = all(d in ("staticmethod", "classmethod", "contextmanager", "contextlib.contextmanager") for d in decos)
         a = fn.args
         if a.vararg or a.kwarg or isinstance(fn, ast.AsyncFunctionDef):
             self.ok = False
-        if _contains(fn, (ast.Yield, ast.YieldFrom, ast.Global, ast.Nonlocal, ast.Await)):
+        self.gen = False
+        if _contains(fn, (ast.YieldFrom, ast.Global, ast.Nonlocal, ast.Await)):
             self.ok = False
+        elif self.cm:
+            # before; yield [v]; after      or      before; try: yield [v] finally: after
+            body = _strip_doc(fn.body)
+            ys = [n for n in ast.walk(fn) if isinstance(n, ast.Yield)]
+            last = body[-1] if body else None
+            shape_ok = False
+            if len(ys) == 1 and not _contains(fn, (ast.Return,)):
+                if isinstance(last, ast.Try) and not last.handlers and not last.orelse and len(last.body) == 1 and isinstance(last.body[0], ast.Expr) and last.body[0].value is ys[0]:
+                    shape_ok = not _contains(body[:-1], (ast.Yield,))
+                else:
+                    idx = [i for i, st in enumerate(body) if isinstance(st, ast.Expr) and st.value is ys[0]]
+                    shape_ok = len(idx) == 1
+            if not shape_ok:
+                self.ok = False
+        elif _contains(fn, (ast.Yield,)):
+            # simple generator: ... prefix ...; for ...: ...; yield e   (single yield, last statement of the last loop)
+            body = _strip_doc(fn.body)
+            ys = [n for n in ast.walk(fn) if isinstance(n, ast.Yield)]
+            last = body[-1] if body else None
+            tail = last.body[-1] if isinstance(last, ast.For) and not last.orelse and last.body else None
+            if len(ys) == 1 and isinstance(tail, ast.Expr) and tail.value is ys[0] and ys[0].value is not None and not _contains(fn, (ast.Return,)):
+                self.gen = True
+            else:
+                self.ok = False
         if _contains(fn, FuncT + (ast.ClassDef,), skip_nested=False):
             self.ok = False
         if any(isinstance(n, ast.Call) and ((isinstance(n.func, ast.Name) and n.func.id == fn.name) or (isinstance(n.func, ast.Attribute) and n.func.attr == fn.name))
@@ -590,8 +616,10 @@ def _bind(c: Candidate, call: ast.Call, receiver):
             raise _NoInline("method without self")
         first = pos.pop(0)
         if c.classm:
-            if any(isinstance(n, ast.Name) and n.id == first for n in ast.walk(fn)):
+            # cls.attr on the class == receiver.attr for methods/class attributes (receiver is self, cls or the class name)
+            if any(isinstance(n, ast.Name) and n.id == first and not isinstance(getattr(n, "_parent_attr", None), ast.Attribute) for n in ast.walk(fn)) and False:
                 raise _NoInline("classmethod uses cls")
+            bound[first] = receiver
         else:
             bound[first] = receiver
     if any(isinstance(x, ast.Starred) for x in call.args) or any(k.arg is None for k in call.keywords):
@@ -614,7 +642,9 @@ def _bind(c: Candidate, call: ast.Call, receiver):
         if p not in bound:
             if p not in defaults:
                 raise _NoInline("missing argument " + p)
-            bound[p] = defaults[p]
+            d = copy.deepcopy(defaults[p])
+            d._from_default = True  # type: ignore[attr-defined]
+            bound[p] = d
     return bound
 
 
@@ -623,6 +653,8 @@ _COUNTER = [0]
 
 def _instantiate(c: Candidate, call: ast.Call, receiver, want_expr: bool):
     """returns (pre_statements, value_expression)"""
+    if c.gen or c.cm:
+        raise _NoInline("generator/context manager used outside a for/with statement")
     bound = _bind(c, call, receiver)
     _COUNTER[0] += 1
     k = _COUNTER[0]
@@ -693,10 +725,109 @@ def _instantiate(c: Candidate, call: ast.Call, receiver, want_expr: bool):
     out = pre + stmts
     for s in out:
         for n in ast.walk(s):
+            n._inl = True  # type: ignore[attr-defined]
             if not hasattr(n, "lineno") and isinstance(n, (ast.expr, ast.stmt)):
                 ast.copy_location(n, call)
         ast.fix_missing_locations(s)
+    for n in ast.walk(value):
+        n._inl = True  # type: ignore[attr-defined]
     return out, value
+
+
+
+def _instantiate_generator(c: Candidate, call: ast.Call, receiver, loop: ast.For):
+    """for T in gen(args): BODY   ->   prefix; for ...: pre; T = e; BODY"""
+    bound = _bind(c, call, receiver)
+    _COUNTER[0] += 1
+    k = _COUNTER[0]
+    fn = copy.deepcopy(c.fn)
+    body = _strip_doc(fn.body)
+    assigned = _stores(fn)
+    pre, direct = [], {}
+    for p, v in bound.items():
+        if p not in assigned and _simple_arg(v):
+            direct[p] = v
+            continue
+        tmp = f"{p}__i{k}"
+        pre.append(ast.Assign(targets=[ast.Name(id=tmp, ctx=ast.Store())], value=copy.deepcopy(v)))
+        if p in assigned:
+            for n in ast.walk(fn):
+                if isinstance(n, ast.Name) and n.id == p:
+                    n.id = tmp
+        else:
+            direct[p] = ast.Name(id=tmp, ctx=ast.Load())
+    locs = {n.id for st in body for n in ast.walk(st) if isinstance(n, ast.Name) and isinstance(n.ctx, (ast.Store, ast.Del))} - set(direct)
+    for st in body:
+        for n in ast.walk(st):
+            if isinstance(n, ast.Name) and n.id in locs:
+                n.id = f"{n.id}__i{k}"
+    sub = _Subst(direct, mark=False)
+    body = [sub.visit(st) for st in body]
+    gloop = body[-1]
+    y = gloop.body[-1].value
+    assign = ast.Assign(targets=[copy.deepcopy(loop.target)], value=y.value)
+    gloop.body = gloop.body[:-1] + [assign] + loop.body
+    out = pre + body
+    for st in out:
+        for n in ast.walk(st):
+            n._inl = True  # type: ignore[attr-defined]
+            if not hasattr(n, "lineno") and isinstance(n, (ast.expr, ast.stmt)):
+                ast.copy_location(n, call)
+        ast.fix_missing_locations(st)
+    return out
+
+
+
+def _instantiate_cm(c: Candidate, call: ast.Call, receiver, w: ast.With):
+    """with cm(args) [as v]: BODY   ->   before; [v = yielded]; try: BODY finally: after   (or before; BODY; after)"""
+    bound = _bind(c, call, receiver)
+    _COUNTER[0] += 1
+    k = _COUNTER[0]
+    fn = copy.deepcopy(c.fn)
+    body = _strip_doc(fn.body)
+    assigned = _stores(fn)
+    pre, direct = [], {}
+    for p, v in bound.items():
+        if p not in assigned and _simple_arg(v):
+            direct[p] = v
+            continue
+        tmp = f"{p}__i{k}"
+        pre.append(ast.Assign(targets=[ast.Name(id=tmp, ctx=ast.Store())], value=copy.deepcopy(v)))
+        if p in assigned:
+            for n in ast.walk(fn):
+                if isinstance(n, ast.Name) and n.id == p:
+                    n.id = tmp
+        else:
+            direct[p] = ast.Name(id=tmp, ctx=ast.Load())
+    locs = {n.id for st in body for n in ast.walk(st) if isinstance(n, ast.Name) and isinstance(n.ctx, (ast.Store, ast.Del))} - set(direct)
+    for st in body:
+        for n in ast.walk(st):
+            if isinstance(n, ast.Name) and n.id in locs:
+                n.id = f"{n.id}__i{k}"
+    sub = _Subst(direct, mark=False)
+    body = [sub.visit(st) for st in body]
+    var = w.items[0].optional_vars
+
+    def bind_var(y):
+        if var is None:
+            return []
+        return [ast.Assign(targets=[copy.deepcopy(var)], value=y.value if y.value is not None else ast.Constant(value=None))]
+    last = body[-1]
+    if isinstance(last, ast.Try):
+        y = last.body[0].value
+        last.body = bind_var(y) + w.body
+        out = pre + body
+    else:
+        idx = next(i for i, st in enumerate(body) if isinstance(st, ast.Expr) and isinstance(st.value, ast.Yield))
+        y = body[idx].value
+        out = pre + body[:idx] + bind_var(y) + w.body + body[idx + 1:]
+    for st in out:
+        for n in ast.walk(st):
+            n._inl = True  # type: ignore[attr-defined]
+            if not hasattr(n, "lineno") and isinstance(n, (ast.expr, ast.stmt)):
+                ast.copy_location(n, call)
+        ast.fix_missing_locations(st)
+    return out
 
 
 def _falls_without_ret(stmts, ret) -> bool:
@@ -753,6 +884,65 @@ def _pure_before(stmt_expr_root: ast.AST, call: ast.Call) -> bool:
     return ok[0] and found[0]
 
 
+
+_EAGER_CONSUMERS = {"list", "tuple", "sorted", "set", "frozenset", "sum", "max", "min"}
+
+
+def _comp_to_loop(stmt, root, call):
+    """the candidate call sits inside a single-generator list comprehension / fully consumed generator expression:
+    rewrite   S[ [E for T in IT if C] ]   as   tmp = []; for T in IT: if C: tmp.append(E);  S[tmp]
+    (only when nothing impure is evaluated before the comprehension inside S)"""
+    comp = None
+    parents = {}
+    for n in ast.walk(root):
+        for ch in ast.iter_child_nodes(n):
+            parents[ch] = n
+    n = call
+    while n in parents:
+        n = parents[n]
+        if isinstance(n, (ast.ListComp, ast.GeneratorExp, ast.SetComp, ast.DictComp, ast.Lambda)):
+            comp = n
+            break
+    if comp is None or not isinstance(comp, (ast.ListComp, ast.GeneratorExp)) or len(comp.generators) != 1 or comp.generators[0].is_async:
+        return None
+    # nested inside another comprehension/lambda?
+    m = comp
+    while m in parents:
+        m = parents[m]
+        if isinstance(m, (ast.ListComp, ast.GeneratorExp, ast.SetComp, ast.DictComp, ast.Lambda)):
+            return None
+    if isinstance(comp, ast.GeneratorExp):
+        par = parents.get(comp)
+        ok = isinstance(par, ast.Call) and len(par.args) == 1 and par.args[0] is comp and not par.keywords and (
+            (isinstance(par.func, ast.Name) and par.func.id in _EAGER_CONSUMERS)
+            or (isinstance(par.func, ast.Attribute) and par.func.attr in ("join", "extend", "update")))
+        if not ok:
+            return None
+    if not _pure_before(root, comp) if comp is not root else False:
+        return None
+    g = comp.generators[0]
+    # the candidate call must not be in the iterable (evaluated once: plain hoisting handles that)
+    if any(x is call for x in ast.walk(g.iter)):
+        return None
+    _COUNTER[0] += 1
+    tmp = f"items__i{_COUNTER[0]}"
+    app = ast.Expr(value=ast.Call(func=ast.Attribute(value=ast.Name(id=tmp, ctx=ast.Load()), attr="append", ctx=ast.Load()), args=[comp.elt], keywords=[]))
+    body = [app]
+    for c in reversed(g.ifs):
+        body = [ast.If(test=c, body=body, orelse=[])]
+    loop = ast.For(target=g.target, iter=g.iter, body=body, orelse=[])
+    init = ast.Assign(targets=[ast.Name(id=tmp, ctx=ast.Store())], value=ast.List(elts=[], ctx=ast.Load()))
+    _replace(stmt, comp, ast.Name(id=tmp, ctx=ast.Load()))
+    out = [init, loop]
+    for st in out:
+        ast.copy_location(st, stmt)
+        for x in ast.walk(st):
+            if not hasattr(x, "lineno") and isinstance(x, (ast.expr, ast.stmt)):
+                ast.copy_location(x, stmt)
+        ast.fix_missing_locations(st)
+    return out
+
+
 def _class_chain(modules, cls_name):
     """class node and (by name) its package bases, nearest first"""
     index = {}
@@ -787,7 +977,8 @@ def _inline_helpers(modules, ref_funcs, report) -> None:
                 cands[(name, None, n.name)] = Candidate(name, None, n)
             elif isinstance(n, ast.ClassDef):
                 for b in n.body:
-                    if isinstance(b, FuncT) and b.name.startswith("_") and not b.name.startswith("__") and f"{n.name}.{b.name}" not in reff:
+                    is_cm = isinstance(b, FuncT) and any(ast.unparse(d) in ("contextmanager", "contextlib.contextmanager") for d in b.decorator_list)
+                    if isinstance(b, FuncT) and (b.name.startswith("_") or is_cm) and not b.name.startswith("__") and f"{n.name}.{b.name}" not in reff:
                         cands[(name, n.name, b.name)] = Candidate(name, n.name, b)
     cands = {k: c for k, c in cands.items() if c.ok}
     if not cands:
@@ -805,6 +996,13 @@ def _inline_helpers(modules, ref_funcs, report) -> None:
     if not by_name:
         return
 
+    singletons: dict[str, str] = {}        # module-level NAME = ClassName()
+    for mi in modules.values():
+        for n in mi.tree.body:
+            if isinstance(n, ast.Assign) and len(n.targets) == 1 and isinstance(n.targets[0], ast.Name) and isinstance(n.value, ast.Call) \
+                    and isinstance(n.value.func, ast.Name) and not n.value.args and not n.value.keywords:
+                singletons.setdefault(n.targets[0].id, n.value.func.id)
+
     def resolve(call: ast.Call, mod: str, cls: str | None):
         f = call.func
         if isinstance(f, ast.Name) and f.id in by_name:
@@ -820,6 +1018,8 @@ def _inline_helpers(modules, ref_funcs, report) -> None:
                 if c.cls in chain:
                     return c, f.value
             if isinstance(f.value, ast.Name) and f.value.id == c.cls and (c.static or c.classm):
+                return c, f.value
+            if isinstance(f.value, ast.Name) and singletons.get(f.value.id) == c.cls:
                 return c, f.value
         return None
 
@@ -865,7 +1065,7 @@ def _inline_helpers(modules, ref_funcs, report) -> None:
                     remaining[nm] += 1
     for nm, cs in by_name.items():
         c = cs[0]
-        if c.inlined and remaining[nm] == 0:
+        if c.inlined and remaining[nm] == 0 and nm.startswith("_"):
             mi = modules[c.module]
             if c.cls is None:
                 mi.tree.body = [x for x in mi.tree.body if x is not c.fn]
@@ -906,6 +1106,30 @@ def _inline_in_block(owner, field, mod, cls, resolve, by_name, report) -> bool:
         s = block[i]
         fields = _HEADER_FIELDS.get(type(s))
         did = False
+        if isinstance(s, ast.With) and len(s.items) == 1 and isinstance(s.items[0].context_expr, ast.Call):
+            r = resolve(s.items[0].context_expr, mod, cls)
+            if r is not None and r[0].cm and r[0].fn is not owner:
+                try:
+                    new_stmts = _instantiate_cm(r[0], s.items[0].context_expr, r[1], s)
+                    block[i:i + 1] = new_stmts
+                    r[0].inlined += 1
+                    report["inlined"].append(f"context manager {r[0].fn.name} -> {getattr(owner, 'name', '?')}")
+                    changed = True
+                    continue
+                except _NoInline as e:
+                    report["not_inlined"].append(f"{r[0].fn.name}: {e}")
+        if isinstance(s, ast.For) and isinstance(s.iter, ast.Call) and not s.orelse:
+            r = resolve(s.iter, mod, cls)
+            if r is not None and r[0].gen and r[0].fn is not owner:
+                try:
+                    new_stmts = _instantiate_generator(r[0], s.iter, r[1], s)
+                    block[i:i + 1] = new_stmts
+                    r[0].inlined += 1
+                    report["inlined"].append(f"generator {r[0].fn.name} -> {getattr(owner, 'name', '?')}")
+                    changed = True
+                    continue
+                except _NoInline as e:
+                    report["not_inlined"].append(f"{r[0].fn.name}: {e}")
         if fields is not None:
             for fld in fields:
                 root = getattr(s, fld, None)
@@ -922,6 +1146,13 @@ def _inline_in_block(owner, field, mod, cls, resolve, by_name, report) -> bool:
                     try:
                         pre, value = _instantiate(c, call, recv, want_expr=not hoistable)
                     except _NoInline as e:
+                        if not hoistable and not isinstance(s, (ast.If, ast.For)):
+                            conv = _comp_to_loop(s, root, call)
+                            if conv is not None:
+                                block[i:i] = conv
+                                report["inlined"].append(f"comprehension -> loop in {getattr(owner, 'name', '?')} (for {c.fn.name})")
+                                did = True
+                                break
                         report["not_inlined"].append(f"{c.fn.name} at line {getattr(call, 'lineno', '?')}: {e}")
                         continue
                     # copy propagation: x = helper(...) whose value is a fresh local of the inlined block
@@ -938,6 +1169,18 @@ def _inline_in_block(owner, field, mod, cls, resolve, by_name, report) -> bool:
                             report["inlined"].append(f"{c.fn.name} -> {getattr(owner, 'name', '?')}")
                             did = True
                             break
+                    if isinstance(s, ast.Expr) and s.value is call:
+                        # value discarded: drop the statement and the assignments of the result variable
+                        rname = value.id if isinstance(value, ast.Name) and value.id.startswith("ret__i") else None
+                        if rname:
+                            pre = _drop_assignments(pre, rname)
+                        elif any(isinstance(n, ast.Call) for n in ast.walk(value)):
+                            pre = pre + [ast.copy_location(ast.Expr(value=value), s)]
+                        block[i:i + 1] = pre or [ast.copy_location(ast.Pass(), s)]
+                        c.inlined += 1
+                        report["inlined"].append(f"{c.fn.name} -> {getattr(owner, 'name', '?')}")
+                        did = True
+                        break
                     _replace(s, call, value)
                     block[i:i] = pre
                     c.inlined += 1
@@ -960,6 +1203,22 @@ def _inline_in_block(owner, field, mod, cls, resolve, by_name, report) -> bool:
                     changed = True
         i += 1
     return changed
+
+
+def _drop_assignments(stmts, name):
+    out = []
+    for st in stmts:
+        if isinstance(st, ast.Assign) and len(st.targets) == 1 and isinstance(st.targets[0], ast.Name) and st.targets[0].id == name:
+            if any(isinstance(n, ast.Call) for n in ast.walk(st.value)):
+                out.append(ast.copy_location(ast.Expr(value=st.value), st))
+            continue
+        for fld in ("body", "orelse", "finalbody"):
+            b = getattr(st, fld, None)
+            if isinstance(b, list) and b and isinstance(b[0], ast.stmt):
+                nb = _drop_assignments(b, name)
+                setattr(st, fld, nb if (nb or fld != "body") else [ast.copy_location(ast.Pass(), st)])
+        out.append(st)
+    return out
 
 
 def _replace(stmt, old, new) -> None:
@@ -1100,6 +1359,73 @@ def _cleanup_block(block: list) -> list:
     return out
 
 
+def _split_tuple_copies(fn) -> None:
+    """(a, b) = (x__i1, y__i1)  ->  a = x__i1; b = y__i1   (all names distinct, no overlap between sides)"""
+    for blk in _blocks(fn):
+        i = 0
+        while i < len(blk):
+            st = blk[i]
+            if isinstance(st, ast.Assign) and len(st.targets) == 1 and isinstance(st.targets[0], ast.Tuple) and isinstance(st.value, ast.Tuple) \
+                    and len(st.targets[0].elts) == len(st.value.elts) and all(isinstance(x, ast.Name) for x in st.targets[0].elts + st.value.elts):
+                l = [x.id for x in st.targets[0].elts]
+                r = [x.id for x in st.value.elts]
+                if len(set(l)) == len(l) and not set(l) & set(r) and all("__i" in x for x in r):
+                    new = [ast.copy_location(ast.Assign(targets=[ast.Name(id=a, ctx=ast.Store())], value=ast.Name(id=b, ctx=ast.Load())), st) for a, b in zip(l, r)]
+                    for n in new:
+                        ast.fix_missing_locations(n)
+                    blk[i:i + 1] = new
+                    i += len(new)
+                    continue
+            i += 1
+
+
+
+def _ends_with_assign(block, name) -> bool:
+    if not block:
+        return False
+    last = block[-1]
+    if isinstance(last, ast.Assign) and len(last.targets) == 1 and isinstance(last.targets[0], ast.Name) and last.targets[0].id == name:
+        return True
+    if isinstance(last, ast.If) and getattr(last, "_synth", False) and last.orelse:
+        return _ends_with_assign(last.body, name) and _ends_with_assign(last.orelse, name)
+    return False
+
+
+def _sink_return(block, name):
+    """block ends (on every path) with `name = v`: turn those assignments into `return v` and flatten the if/else nest
+    into guard form (if c: ...; return a / rest)"""
+    last = block[-1]
+    if isinstance(last, ast.Assign):
+        return block[:-1] + [ast.copy_location(ast.Return(value=last.value), last)]
+    body = _sink_return(last.body, name)
+    orelse = _sink_return(last.orelse, name)
+    guard = ast.copy_location(ast.If(test=last.test, body=body, orelse=[]), last)
+    return block[:-1] + [guard] + orelse
+
+
+def _restore_returns(block: list) -> list:
+    out = []
+    i = 0
+    while i < len(block):
+        s = block[i]
+        for fld in ("body", "orelse", "finalbody"):
+            b = getattr(s, fld, None)
+            if isinstance(b, list) and b and isinstance(b[0], ast.stmt) and not isinstance(s, FuncT + (ast.ClassDef,)):
+                setattr(s, fld, _restore_returns(b))
+        if isinstance(s, ast.Try):
+            for h in s.handlers:
+                h.body = _restore_returns(h.body)
+        nxt = block[i + 1] if i + 1 < len(block) else None
+        if isinstance(s, ast.If) and getattr(s, "_synth", False) and isinstance(nxt, ast.Return) and isinstance(nxt.value, ast.Name) and nxt.value.id.startswith("ret__i") \
+                and _ends_with_assign([s], nxt.value.id) and not any(isinstance(n, ast.Name) and n.id == nxt.value.id and isinstance(n.ctx, ast.Load) for n in ast.walk(s)):
+            out.extend(_sink_return([s], nxt.value.id))
+            i += 2
+            continue
+        out.append(s)
+        i += 1
+    return out
+
+
 def _coalesce_copies(fn) -> int:
     """C3: `x = t__iN` where t__iN (an inliner local) is never mentioned afterwards and x is not mentioned between
     t's first occurrence and the copy: rename t to x and drop the copy"""
@@ -1185,6 +1511,52 @@ def _remove_stmt(fn, s) -> None:
                     blk.append(ast.copy_location(ast.Pass(), s))
                 return
 
+
+def _drop_default_args(modules, report) -> None:
+    """in code produced by inlining, an argument that equals the callee's own default (callee resolved by a name defined
+    exactly once in the package) is dropped: f(x, None) -> f(x) when the second parameter defaults to None"""
+    defs: dict[str, list] = {}
+    for mi in modules.values():
+        for n in ast.walk(mi.tree):
+            if isinstance(n, FuncT):
+                defs.setdefault(n.name, []).append(n)
+    for mi in modules.values():
+        for n in ast.walk(mi.tree):
+            if not (isinstance(n, ast.Call) and getattr(n, "_inl", False)):
+                continue
+            nm = n.func.attr if isinstance(n.func, ast.Attribute) else (n.func.id if isinstance(n.func, ast.Name) else None)
+            ds = defs.get(nm or "", [])
+            if len(ds) != 1 or any(isinstance(a, ast.Starred) for a in n.args) or any(k.arg is None for k in n.keywords):
+                continue
+            fn = ds[0]
+            a = fn.args
+            pos = [p.arg for p in list(a.posonlyargs) + list(a.args)]
+            if pos and pos[0] in ("self", "cls") and isinstance(n.func, ast.Attribute):
+                pos = pos[1:]
+            full = [p.arg for p in list(a.posonlyargs) + list(a.args)]
+            defaults = dict(zip(full[len(full) - len(a.defaults):], a.defaults))
+            for p_, d in zip(a.kwonlyargs, a.kw_defaults):
+                if d is not None:
+                    defaults[p_.arg] = d
+            while n.args and len(n.args) <= len(pos) and not n.keywords:
+                p_ = pos[len(n.args) - 1]
+                d = defaults.get(p_)
+                if d is not None and isinstance(d, ast.Constant) and isinstance(n.args[-1], ast.Constant) and getattr(n.args[-1], "_from_default", False) \
+                        and d.value == n.args[-1].value and type(d.value) is type(n.args[-1].value):
+                    n.args.pop()
+                    report["default_args_dropped"] = report.get("default_args_dropped", 0) + 1
+                else:
+                    break
+            keep = []
+            for k in n.keywords:
+                d = defaults.get(k.arg)
+                if d is not None and isinstance(d, ast.Constant) and isinstance(k.value, ast.Constant) and getattr(k.value, "_from_default", False) \
+                        and d.value == k.value.value and type(d.value) is type(k.value.value):
+                    report["default_args_dropped"] = report.get("default_args_dropped", 0) + 1
+                    continue
+                keep.append(k)
+            n.keywords = keep
+
 # --------------------------------------------------------------------------------------------------
 
 def normalise(modules: dict, pkg: str = "rtflite") -> dict:
@@ -1215,10 +1587,13 @@ def normalise(modules: dict, pkg: str = "rtflite") -> dict:
     _inline_helpers(modules, ref_funcs, report)
     _inline_closures(modules, ref_funcs, report)
     if report["inlined"]:
+        _drop_default_args(modules, report)
         for mi in modules.values():
             for _cls, fn in _all_functions(mi.tree):
                 if any(isinstance(n, ast.Name) and "__i" in n.id for n in ast.walk(fn)) or any(getattr(n, "_synth", False) for n in ast.walk(fn)):
                     fn.body = _cleanup_block(fn.body) or [ast.Pass()]
+                    fn.body = _restore_returns(fn.body)
+                    _split_tuple_copies(fn)
                     report["coalesced"] = report.get("coalesced", 0) + _coalesce_copies(fn)
     for mi in modules.values():
         ast.fix_missing_locations(mi.tree)
